@@ -69,6 +69,8 @@ type path struct {
 	instrs   int64
 	unwinds  map[string]int
 	mapOrder bool // explore all map iteration orders
+	globalOrder bool   // one global key order for all string-keyed maps
+	keyOrder    []string
 	schedAll bool // tier C: nondeterministic choice at every sync op
 	preempt  int  // remaining preemptions
 	sched    []int
